@@ -24,10 +24,14 @@ var pureFuncs = map[string]bool{
 }
 
 type Terms struct {
-	p     *Prog
-	memo  map[ssa.Value]string
-	busy  map[ssa.Value]bool
-	depth int
+	p *Prog
+	// FieldWrites: per repo function, the struct members ("Type.field") it may store to, transitively. When set,
+	// facts about a loaded member are dropped on paths that may store to a member of that name (or call a function
+	// that may) between the test and the point of use: a test of s.f says nothing about s.f after s.f was written.
+	FieldWrites map[*ssa.Function]map[string]bool
+	memo        map[ssa.Value]string
+	busy        map[ssa.Value]bool
+	depth       int
 	// InlineDepth bounds getter inlining.
 	InlineDepth int
 }
@@ -479,15 +483,97 @@ func (t *Terms) edgeFacts(d, b *ssa.BasicBlock) []Fact {
 	if !ok || d.Succs[0] == d.Succs[1] {
 		return nil
 	}
-	fromT := reachableWithout(d.Succs[0], d)[b]
-	fromF := reachableWithout(d.Succs[1], d)[b]
+	rT := reachableWithout(d.Succs[0], d)
+	rF := reachableWithout(d.Succs[1], d)
+	fromT, fromF := rT[b], rF[b]
+	var fs []Fact
+	var via map[*ssa.BasicBlock]bool
 	switch {
 	case fromT && !fromF:
-		return t.condFacts(iff.Cond, true)
+		fs, via = t.condFacts(iff.Cond, true), rT
 	case fromF && !fromT:
-		return t.condFacts(iff.Cond, false)
+		fs, via = t.condFacts(iff.Cond, false), rF
+	default:
+		return nil
 	}
-	return nil
+	if t.FieldWrites == nil || len(fs) == 0 {
+		return fs
+	}
+	// members that may be written on the way from the test to b (blocks reachable from the taken edge that reach b,
+	// b itself excluded: facts hold on entry of b), plus the remainder of the test block after the tested loads
+	killed := map[string]bool{}
+	note := func(in ssa.Instruction) {
+		switch x := in.(type) {
+		case *ssa.Store:
+			if fa, ok := x.Addr.(*ssa.FieldAddr); ok {
+				killed[fieldName(fa.X, fa.Field)] = true
+			}
+		case *ssa.MapUpdate:
+			if u, ok := x.Map.(*ssa.UnOp); ok {
+				if fa, ok := u.X.(*ssa.FieldAddr); ok {
+					killed[fieldName(fa.X, fa.Field)] = true
+				}
+			}
+		case ssa.CallInstruction:
+			if _, isGo := in.(*ssa.Go); isGo {
+				return
+			}
+			if tgt := staticTarget(x.Common()); tgt != nil {
+				for k := range t.FieldWrites[tgt] {
+					if i := strings.LastIndex(k, "."); i >= 0 {
+						killed[k[i+1:]] = true
+					}
+				}
+			}
+		}
+	}
+	canReachB := map[*ssa.BasicBlock]bool{}
+	for blk := range via {
+		if blk == b {
+			continue
+		}
+		if reachableWithout(blk, nil)[b] {
+			canReachB[blk] = true
+		}
+	}
+	for blk := range canReachB {
+		for _, in := range blk.Instrs {
+			note(in)
+		}
+	}
+	if len(killed) == 0 {
+		return fs
+	}
+	var out []Fact
+	for _, f := range fs {
+		drop := false
+		for name := range killed {
+			if mentionsMember(f.A, name) || mentionsMember(f.B, name) {
+				drop = true
+			}
+		}
+		if !drop {
+			out = append(out, f)
+		}
+	}
+	return out
+}
+
+// mentionsMember: the term contains a load of a struct member called name (".name" followed by a non-identifier byte).
+func mentionsMember(term, name string) bool {
+	key := "." + name
+	for i := 0; ; {
+		j := strings.Index(term[i:], key)
+		if j < 0 {
+			return false
+		}
+		end := i + j + len(key)
+		if end == len(term) || !(term[end] == '_' || term[end] >= '0' && term[end] <= '9' || term[end] >= 'a' && term[end] <= 'z' || term[end] >= 'A' && term[end] <= 'Z') {
+			// not a package qualifier such as "strings.Index(": those are followed by an identifier and '('
+			return true
+		}
+		i = end
+	}
 }
 
 // FactsAtInstr = FactsAt(block of in).
